@@ -23,7 +23,8 @@ RULE = ("four kinds of generated case: overlay (causally consistent traces and w
         "second analysis over another window overlaid after the first, and the trace with counters written after the overlays), counters (queue profiles, both "
         "formats), file (random documents: key order, distributedInfo present / absent / with other fields, unicode, floats, nested args, both formats; write -> "
         "read, one or two rank updates), discovery (1-4 files written by the tool's writer or json.dump, compact or indented, both formats, with and without "
-        "metadata, duplicate ranks, and the adversarial class: an event argument named \"rank\" earlier in the text than the metadata). Every written file is read "
+        "metadata, duplicate ranks, ranks of two or three digits whose digits straddle a multiple of 4096 .. 131072 characters of the file's text, and the adversarial "
+        "class: an event argument named \"rank\" earlier in the text than the metadata). Every written file is read "
         "back with the tool's own reader chosen by the file name; the events are interned by canonical JSON (minus args.critical) and compared position by "
         "position with the model's output; flow pairs are canonicalised by content after checking in the harness that ids are 0..n-1, start before end, adjacent. "
         "non-trivial = overlay with >= 3 drawn edges, counters with >= 3 counter events, update on a file with other metadata, discovery of >= 2 files; "
@@ -95,6 +96,29 @@ def _rand_doc(rng, rank, adversarial=False, with_info=None):
     return dict(items)
 
 
+def _serialise(doc, writer, gz):
+    """the text the chosen writer produces (tool: write_trace = compact for .gz, indent=2 for .json)"""
+    if writer == "tool":
+        return json.dumps(doc) if gz else json.dumps(doc, indent=2)
+    return json.dumps(doc, indent=2 if writer == "dump_indent" else None)
+
+
+def _align_rank_digits(doc, rank, writer, gz, boundary):
+    """metadata first, preceded by a filler string sized so that the digits of the rank straddle a multiple of `boundary` characters of the
+    file's text: a reader that scans the file in pieces must not cut the number"""
+    base = {"filler": "", "distributedInfo": {"rank": rank}}
+    base.update({k: v for k, v in doc.items() if k not in ("distributedInfo", "filler")})
+    text = _serialise(base, writer, gz)
+    pos = text.index(f'"rank": {rank}') + len('"rank": ') + 1          # index of the second digit
+    need = (-pos) % boundary
+    if need == 0:
+        need = boundary
+    base["filler"] = "x" * need
+    text = _serialise(base, writer, gz)
+    assert (text.index(f'"rank": {rank}') + len('"rank": ') + 1) % boundary == 0
+    return base
+
+
 def gen_cases(seed, tier, n):
     out = []
     profs = {"overlay": ["cp", "cp_tiny", "cp"], "counters": ["queue", "fifo_tiny", "queue_wide"]}
@@ -114,8 +138,10 @@ def gen_cases(seed, tier, n):
                                          "updates": [rng.randint(0, 64) for _ in range(rng.randint(1, 2))]}, "case_id": i, "seed": seed}
         else:
             nfiles = rng.randint(1, 4)
-            mode = rng.choice(["unique", "unique", "unique", "dups", "nometa", "adversarial"])
+            mode = rng.choice(["unique", "unique", "unique", "dups", "nometa", "adversarial", "boundary"])
             ranks = rng.sample(range(1 if mode == "nometa" else 0, 12), nfiles)   # a file without metadata counts as rank 0
+            if mode == "boundary":
+                ranks = rng.sample(range(10, 1000), nfiles)     # ranks of two or three digits
             if mode == "dups" and nfiles >= 2:
                 ranks[-1] = ranks[0]
             files = []
@@ -125,7 +151,11 @@ def gen_cases(seed, tier, n):
                 doc = _rand_doc(rng, None if no_meta else ranks[k], adversarial=adv, with_info=not no_meta)
                 if no_meta and "distributedInfo" in doc:
                     del doc["distributedInfo"]
-                files.append({"doc": doc, "gz": rng.random() < 0.5, "writer": rng.choice(["tool", "dump", "dump_indent"]),
+                writer = rng.choice(["tool", "dump", "dump_indent"])
+                gzf = rng.random() < 0.5
+                if mode == "boundary" and k == 0:
+                    doc = _align_rank_digits(doc, ranks[k], writer, gzf, rng.choice([4096, 8192, 16384, 32768, 65536, 131072]))
+                files.append({"doc": doc, "gz": gzf, "writer": writer,
                               "meta_rank": None if no_meta else ranks[k],
                               # update_trace_rank on a file without metadata appends the key at the end of the document
                               "update_to": (ranks[k] if (no_meta and rng.random() < 0.5) else None)})
